@@ -601,6 +601,71 @@ fn cmd_compare(args: &[String]) -> i32 {
     }
 }
 
+/// C09, process-wide default capacity: one configuration per fresh process (the default lives in a
+/// OnceLock). Modes: unset | set:N | set-twice:N:M | zero-then:N. Prints one JSON line; exit 1 on violation.
+fn cmd_capconfig(args: &[String]) -> i32 {
+    let mode = args.first().cloned().unwrap_or_else(|| "unset".into());
+    let parts: Vec<&str> = mode.split(':').collect();
+    let num = |i: usize| -> usize { parts.get(i).and_then(|x| x.parse().ok()).unwrap_or(0) };
+    let mut problems: Vec<String> = Vec::new();
+    let is_cap_err = |r: &rsactor::Result<()>| matches!(r, Err(rsactor::Error::MailboxCapacity { .. }));
+    let expected = match parts[0] {
+        "unset" => DEFAULT_CAP,
+        "set" => {
+            let r = rsactor::set_default_mailbox_capacity(num(1));
+            if r.is_err() {
+                problems.push(format!("set_default_mailbox_capacity({}) failed: {r:?}", num(1)));
+            }
+            num(1)
+        }
+        "set-twice" => {
+            let r1 = rsactor::set_default_mailbox_capacity(num(1));
+            let r2 = rsactor::set_default_mailbox_capacity(num(2));
+            if r1.is_err() {
+                problems.push(format!("first set_default_mailbox_capacity({}) failed: {r1:?}", num(1)));
+            }
+            if !is_cap_err(&r2) {
+                problems.push(format!("second set_default_mailbox_capacity({}) returned {r2:?}, expected Err(MailboxCapacity)", num(2)));
+            }
+            num(1)
+        }
+        "zero-then" => {
+            let r0 = rsactor::set_default_mailbox_capacity(0);
+            if !is_cap_err(&r0) {
+                problems.push(format!("set_default_mailbox_capacity(0) returned {r0:?}, expected Err(MailboxCapacity)"));
+            }
+            let r1 = rsactor::set_default_mailbox_capacity(num(1));
+            if r1.is_err() {
+                problems.push(format!("set_default_mailbox_capacity({}) after a rejected 0 failed: {r1:?}", num(1)));
+            }
+            num(1)
+        }
+        other => {
+            eprintln!("unknown mode {other}");
+            return 2;
+        }
+    };
+    // measure: an actor spawned with `spawn()` stalls in on_start; one sender issues tells until it blocks
+    let n = expected + 5;
+    let mut ops = Vec::new();
+    for i in 0..n {
+        ops.push(Op::Tell { h: 0, m: Msg::work(i as u64 + 1) });
+    }
+    let sc = Scenario { actors: vec![ActorSpec { cap: None, on_start: vec![Op::Wait(1)], ..Default::default() }], clients: vec![ops], ..Default::default() };
+    let cfg = SchedCfg { seed: 7, strategy: exec::StrategyCfg::Fifo, spurious_permille: 0, max_steps: 20_000, replay: None };
+    let r = exec::execute(&sc, &cfg);
+    let accepted = r.log.iter().filter(|e| matches!(&e.k, world::EvKind::Ret { res: world::Res::Ok, .. })).count();
+    if accepted != expected {
+        problems.push(format!("spawn() gave a mailbox that accepted {accepted} messages before blocking, expected capacity {expected}"));
+    }
+    println!("{}", serde_json::json!({"mode": mode, "expected_capacity": expected, "measured_capacity": accepted, "problems": problems}));
+    if problems.is_empty() {
+        0
+    } else {
+        1
+    }
+}
+
 fn cmd_show(args: &[String]) -> i32 {
     let prop = arg(args, "--prop").unwrap_or("C01").to_string();
     let seed: u64 = arg(args, "--seed").and_then(|s| s.parse().ok()).unwrap_or(20260101);
@@ -632,6 +697,7 @@ fn main() {
         Some("determinism") => cmd_determinism(&args[1..]),
         Some("show") => cmd_show(&args[1..]),
         Some("record") => cmd_record(&args[1..]),
+        Some("capconfig") => cmd_capconfig(&args[1..]),
         Some("compare") => cmd_compare(&args[1..]),
         Some("features") => {
             println!("{}", features().join(","));
